@@ -193,6 +193,12 @@ def _scores(tier):
         ("e", 0, 4, "E", None, 4, 1, 1), ("c2", 0, 4, "C", None, 4, 2, 1), ("c1", 4, 4, "C", None, 4, 1, 1), ("x", 8, 8, "D", None, 4, 1, 1), ("y", 8, 8, "C", None, 4, 2, 1)],
         measures=[(0, 16)], key=(0, "major"))])))
 
+    # spellings across the octave boundary (B sharp sounds the C above, C flat the B below), and the bottom of the MIDI range (below A0)
+    out.append(("b_sharp_c_flat_and_sub_contra_notes", lambda: G.simple_score([G.build_part("P1", 4, notes=[
+        ("s0", 0, 4, "B", 1, 3, 1, 1), ("s1", 4, 4, "C", -1, 5, 1, 1), ("s2", 8, 4, "B", 2, 4, 1, 1), ("s3", 12, 4, "C", -2, 4, 1, 1),
+        ("l0", 16, 4, "C", None, 0, 1, 1), ("l1", 20, 4, "G", 1, 0, 1, 1), ("l2", 24, 4, "E", None, -1, 1, 1), ("l3", 28, 4, "A", None, 0, 1, 1)],
+        measures=[(0, 16), (16, 32)], key=(0, "major"))])))
+
     def lead_in():
         # the first time signature stands two quarters into the piece (an unmetered lead-in), not at its start
         p = sc.Part("P1", quarter_duration=4)
